@@ -4,6 +4,7 @@
 # without the change and fails with it. Stores patch.diff + demo in /verif/seeded/<id>/ and prints a summary line.
 set -e
 ID=$1; PROP=$2; WT=$3
+[ -d "$WT" ] || { echo "no such worktree $WT"; exit 1; }
 OUT=/verif/seeded/$ID
 mkdir -p $OUT
 git -C $WT diff -- tartiflette > $OUT/patch.diff
